@@ -6,6 +6,7 @@ import (
 	"io"
 	"math"
 	"math/rand"
+	"os"
 	"regexp"
 	"runtime"
 	"strconv"
@@ -57,6 +58,9 @@ type prodDesc struct {
 	// parameter Param (no copy); the bytes are formatted from the mesh at Write time.
 	Stl   bool `json:"stl,omitempty"`
 	Param int  `json:"param,omitempty"`
+	// SlowUS > 0: a text artifact whose Write takes this many microseconds (an encoder that
+	// is still busy after Artifact() released the lock).
+	SlowUS int `json:"slow_us,omitempty"`
 }
 
 type graphDesc struct {
@@ -69,6 +73,50 @@ type graphDesc struct {
 func pref(k int) int { return -(k + 1) }
 
 // render is the reference evaluation of node n under the parameter values `state`.
+// Poison: an int parameter whose value modulo 1000 lies in [660,670) makes the Itoa node that
+// reads it panic. A build that touches a poisoned parameter FAILS (the panic reaches the
+// caller of Artifact / the HTTP layer answers 500) and changes nothing; it is rendered as
+// panicOut by the reference model.
+const (
+	panicOut    = "PANIC"
+	poisonPanic = "c13 poison value"
+)
+
+func poisonInt(v int) bool { m := v % 1000; return m >= 660 && m < 670 }
+
+func poisonDisplay(kind int, display string) bool {
+	if kind != pInt {
+		return false
+	}
+	v, err := strconv.Atoi(display)
+	return err == nil && poisonInt(v)
+}
+
+// artifactOf is the reference content of producer pi under `state` (panicOut when the build
+// touches a poisoned parameter).
+func (g *graphDesc) artifactOf(state []string, pi int) string {
+	pr := g.Producers[pi]
+	if pr.Stl {
+		return state[pr.Param]
+	}
+	for _, k := range g.occurrences(pr.Node, nil) {
+		if poisonDisplay(g.Params[k].Kind, state[k]) {
+			return panicOut
+		}
+	}
+	return g.render(state, pr.Node)
+}
+
+// anyPoisoned: some producer's build would fail under `state`.
+func (g *graphDesc) anyPoisoned(state []string) bool {
+	for pi := range g.Producers {
+		if g.artifactOf(state, pi) == panicOut {
+			return true
+		}
+	}
+	return false
+}
+
 func (g *graphDesc) render(state []string, n int) string {
 	var b strings.Builder
 	g.renderTo(&b, state, n)
@@ -185,6 +233,9 @@ func designGraph(r *rand.Rand) *graphDesc {
 		{In: []int{0, 1, pref(0)}},
 	}
 	g.Producers = []prodDesc{{Name: "out.txt", Node: 2}, {Name: "copy.txt", Node: 2}, {Name: "m1.txt", Node: 0}}
+	if r.Intn(2) == 0 {
+		g.Producers = append(g.Producers, prodDesc{Name: "slow.txt", Node: 2, SlowUS: 300 + r.Intn(2500)})
+	}
 	g.addStlProducers(r, 1)
 	return g
 }
@@ -253,6 +304,9 @@ func randomGraph(r *rand.Rand) *graphDesc {
 	}
 	if r.Intn(3) == 0 {
 		g.Producers = append(g.Producers, prodDesc{Name: "other.bin", Node: r.Intn(nm), Binary: true})
+	}
+	if r.Intn(2) == 0 {
+		g.Producers = append(g.Producers, prodDesc{Name: "slow.txt", Node: []int{t, r.Intn(nm)}[r.Intn(2)], SlowUS: 300 + r.Intn(2500)})
 	}
 	g.addStlProducers(r, 4)
 	return g
@@ -367,6 +421,9 @@ type ItoaData struct {
 func (d ItoaData) Process() (string, error) {
 	v := d.In.Value()
 	d.Plan.pause(0)
+	if poisonInt(v) {
+		panic(fmt.Errorf("%s %d", poisonPanic, v))
+	}
 	return strconv.Itoa(v), nil
 }
 
@@ -507,6 +564,36 @@ func decodeSTL(b []byte) string {
 	return vecDisplay(pts)
 }
 
+// SlowText is a harness artifact whose Write is slow: the encoder keeps working for a while
+// after Artifact() returned and released the lock.
+type SlowText struct {
+	Data  string
+	Delay time.Duration
+}
+
+func (s SlowText) Write(w io.Writer) error {
+	half := len(s.Data) / 2
+	if _, err := w.Write([]byte(s.Data[:half])); err != nil {
+		return err
+	}
+	time.Sleep(s.Delay)
+	_, err := w.Write([]byte(s.Data[half:]))
+	return err
+}
+
+func (SlowText) Mime() string { return "text/plain" }
+
+type SlowTextData struct {
+	In      nodes.NodeOutput[string]
+	DelayUS int
+}
+
+func (d SlowTextData) Process() (artifact.Artifact, error) {
+	return SlowText{Data: d.In.Value(), Delay: time.Duration(d.DelayUS) * time.Microsecond}, nil
+}
+
+type SlowTextNode = nodes.Struct[artifact.Artifact, SlowTextData]
+
 // StringToBytesData feeds a binary producer.
 type StringToBytesData struct {
 	In nodes.NodeOutput[string]
@@ -519,6 +606,8 @@ type StringToBytesNode = nodes.Struct[[]byte, StringToBytesData]
 // ---------------------------------------------------------------------------
 // building the polyform graph from the description
 // ---------------------------------------------------------------------------
+
+var appSerial int64
 
 type live struct {
 	app      *generator.App
@@ -599,6 +688,8 @@ func build(d *graphDesc, r *rand.Rand, intensity int, viaApp bool) *live {
 		if p.Stl {
 			mesh := (&CloudMeshNode{Data: CloudMeshData{In: vouts[p.Param]}}).Out()
 			out = (&stl.ArtifactNode{Data: stl.ArtifactNodeData{In: mesh}}).Out()
+		} else if p.SlowUS > 0 {
+			out = (&SlowTextNode{Data: SlowTextData{In: nouts[p.Node], DelayUS: p.SlowUS}}).Out()
 		} else if p.Binary {
 			out = basics.NewBinaryNode((&StringToBytesNode{Data: StringToBytesData{In: nouts[p.Node]}}).Out())
 		} else {
@@ -608,7 +699,7 @@ func build(d *graphDesc, r *rand.Rand, intensity int, viaApp bool) *live {
 	}
 	var g *graph.Instance
 	if viaApp {
-		lv.app = &generator.App{Name: "c13", Version: "v0", Description: "C13 history", Files: files, Out: io.Discard}
+		lv.app = &generator.App{Name: fmt.Sprintf("c13-%d-%d-%x", os.Getpid(), atomic.AddInt64(&appSerial, 1), r.Uint64()), Version: "v0", Description: "C13 history", Files: files, Out: io.Discard}
 		g = generator.VerifGraph(lv.app)
 	} else {
 		g = graph.New(&refutil.TypeFactory{})
